@@ -39,6 +39,10 @@ pub struct RawMid {
     pub vars: Vec<RawMidVar>,
     /// heavily parametrised: every variable gets an implicit (fully unknown) function of three regulators
     pub heavy: bool,
+    /// additional frozen variables (`$zp: zp`): 12-18 variables in total at the BDD cost of 7-10; with
+    /// 45 or 52 of them the network has more than 2^53 states (every count held in a float is then
+    /// inexact) and the formula gets a single state or its complement as an argument (`with_point`)
+    pub pad: u8,
 }
 
 pub const MID_MIN: usize = 7;
@@ -51,8 +55,13 @@ pub fn raw_mid() -> BoxedStrategy<RawMid> {
         gen::raw_expr_strategy(),
     )
         .prop_map(|(regs, kind, expr)| RawMidVar { regs, kind, expr });
-    (0..8u8, prop::collection::vec(var, MID_MAX), prop::bool::weighted(0.1))
-        .prop_map(|(n, vars, heavy)| RawMid { n, vars, heavy })
+    (
+        0..8u8,
+        prop::collection::vec(var, MID_MAX),
+        prop::bool::weighted(0.1),
+        prop_oneof![4 => Just(0u8), 1 => Just(3u8), 1 => Just(5u8), 1 => Just(8u8), 1 => Just(45u8), 1 => Just(52u8)],
+    )
+        .prop_map(|(n, vars, heavy, pad)| RawMid { n, vars, heavy, pad })
         .boxed()
 }
 
@@ -119,6 +128,10 @@ pub fn resolve_mid(raw: &RawMid) -> String {
                 lines.push(format!("${}: in_{}", names[i], i));
             }
         }
+    }
+    for i in 0..raw.pad {
+        lines.push(format!("zp{i} -> zp{i}"));
+        lines.push(format!("$zp{i}: zp{i}"));
     }
     lines.join("\n")
 }
@@ -237,6 +250,21 @@ pub struct ScaleOutcome {
 
 /// Evaluate through the crate's plain entry points and through the reference symbolic evaluator.
 pub fn check_scale(prefix: &str, case: &ScaleCase, ref_budget: Duration) -> Verdict {
+    check_scale_with(prefix, case, ref_budget, std::sync::Arc::new(|_, _, _| None))
+}
+
+/// A further, property-specific comparison on (graph, formula text, reference result); returns
+/// (failure class suffix, message) if it fails.
+pub type ExtraCheck = std::sync::Arc<dyn Fn(&SymbolicAsyncGraph, &str, &GraphColoredVertices) -> Option<(String, String)> + Send + Sync>;
+
+/// Tool calls abandoned because they exceeded their time limit (the thread keeps running until the
+/// process ends; the case is skipped and counted, never judged).
+pub static ABANDONED_TOOL_CALLS: std::sync::atomic::AtomicU64 = std::sync::atomic::AtomicU64::new(0);
+
+/// The reference evaluator runs first, under `ref_budget`; then the crate's entry points run on a
+/// helper thread under a limit of max(20 s, 25 x the time the reference needed): the crate's code
+/// cannot be interrupted, and a call that blows up must not turn the whole run inconclusive.
+pub fn check_scale_with(prefix: &str, case: &ScaleCase, ref_budget: Duration, extra: ExtraCheck) -> Verdict {
     let bn = match case.network() {
         Ok(b) => b,
         Err(r) => return Verdict::Discard(r),
@@ -248,7 +276,6 @@ pub fn check_scale(prefix: &str, case: &ScaleCase, ref_budget: Duration) -> Verd
     if !f.is_closed() {
         return Verdict::Discard("outside-domain");
     }
-    let extended = f.has_wild_or_domain();
     let graph = match guard(|| get_extended_symbolic_graph(&bn, case.k)) {
         Ok(Ok(g)) => g,
         Ok(Err(_)) => return Verdict::Discard("constraints-unsatisfiable"),
@@ -266,6 +293,7 @@ pub fn check_scale(prefix: &str, case: &ScaleCase, ref_budget: Duration) -> Verd
     if wild.iter().chain(dom.iter()).any(|l| !labels.contains_key(l)) {
         return Verdict::Discard("unreadable-case");
     }
+    let t_reference = Instant::now();
     let reference = {
         let r = RefSym::new(&bn, &graph, &labels, case.fast, Some(Instant::now() + ref_budget));
         // pre-flight: the tool computes the steady states at the start of every call and cannot be
@@ -282,6 +310,39 @@ pub fn check_scale(prefix: &str, case: &ScaleCase, ref_budget: Duration) -> Verd
     if depends_on_extras(graph.symbolic_context(), &reference) {
         harness_error(&format!("reference symbolic evaluator: result of closed formula {} depends on spare variables", case.formula));
     }
+    let limit = Duration::from_secs(20).max(t_reference.elapsed() * 25).min(Duration::from_secs(600)).max(ref_budget);
+    let (tx, rx) = std::sync::mpsc::channel();
+    let owned = (prefix.to_string(), case.clone(), bn, graph, labels, reference, f);
+    let spawned = std::thread::Builder::new().name("tool-call".into()).stack_size(64 << 20).spawn(move || {
+        let (prefix, case, bn, graph, labels, reference, f) = owned;
+        let v = tool_part(&prefix, &case, &bn, &graph, &labels, &reference, &f, extra);
+        let _ = tx.send(v);
+    });
+    if spawned.is_err() {
+        harness_error("cannot spawn the helper thread for the tool calls");
+    }
+    match rx.recv_timeout(limit) {
+        Ok(v) => v,
+        Err(std::sync::mpsc::RecvTimeoutError::Timeout) => {
+            ABANDONED_TOOL_CALLS.fetch_add(1, std::sync::atomic::Ordering::SeqCst);
+            Verdict::Discard("tool-call-exceeded-its-time-limit")
+        }
+        Err(std::sync::mpsc::RecvTimeoutError::Disconnected) => harness_error("the helper thread for the tool calls died without a verdict"),
+    }
+}
+
+#[allow(clippy::too_many_arguments)]
+fn tool_part(
+    prefix: &str,
+    case: &ScaleCase,
+    bn: &BooleanNetwork,
+    graph: &SymbolicAsyncGraph,
+    labels: &HashMap<String, GraphColoredVertices>,
+    reference: &GraphColoredVertices,
+    f: &F,
+    extra: ExtraCheck,
+) -> Verdict {
+    let extended = f.has_wild_or_domain();
     let text = case.formula.as_str();
     macro_rules! entry {
         ($name:expr, $e:expr) => {
@@ -300,10 +361,10 @@ pub fn check_scale(prefix: &str, case: &ScaleCase, ref_budget: Duration) -> Verd
     }
     let clean = if extended {
         let dirty = entry!("model_check_extended_formula_dirty", model_check_extended_formula_dirty(text, &graph, &labels));
-        if dirty != reference {
+        if &dirty != reference {
             return Verdict::Fail(sfail(
                 &format!("{prefix}:scale-mismatch:model_check_extended_formula_dirty"),
-                format!("model_check_extended_formula_dirty: {}", witness_of(&graph, &dirty, &reference)),
+                format!("model_check_extended_formula_dirty: {}", witness_of(graph, &dirty, reference)),
                 case,
             ));
         }
@@ -311,12 +372,12 @@ pub fn check_scale(prefix: &str, case: &ScaleCase, ref_budget: Duration) -> Verd
             "model_check_multiple_extended_formulae_dirty",
             model_check_multiple_extended_formulae_dirty(vec![text], &graph, &labels)
         );
-        if batch.len() != 1 || batch[0] != reference {
+        if batch.len() != 1 || &batch[0] != reference {
             return Verdict::Fail(sfail(
                 &format!("{prefix}:scale-mismatch:model_check_multiple_extended_formulae_dirty"),
                 format!(
                     "model_check_multiple_extended_formulae_dirty: {}",
-                    batch.first().map(|b| witness_of(&graph, b, &reference)).unwrap_or_else(|| "no result".into())
+                    batch.first().map(|b| witness_of(graph, b, reference)).unwrap_or_else(|| "no result".into())
                 ),
                 case,
             ));
@@ -324,19 +385,19 @@ pub fn check_scale(prefix: &str, case: &ScaleCase, ref_budget: Duration) -> Verd
         entry!("model_check_extended_formula", model_check_extended_formula(text, &graph, &labels))
     } else {
         let dirty = entry!("model_check_formula_dirty", model_check_formula_dirty(text, &graph));
-        if dirty != reference {
+        if &dirty != reference {
             return Verdict::Fail(sfail(
                 &format!("{prefix}:scale-mismatch:model_check_formula_dirty"),
-                format!("model_check_formula_dirty: {}", witness_of(&graph, &dirty, &reference)),
+                format!("model_check_formula_dirty: {}", witness_of(graph, &dirty, reference)),
                 case,
             ));
         }
         let tree = entry!("parse_and_minimize_hctl_formula", parse_and_minimize_hctl_formula(graph.symbolic_context(), text));
         let by_tree = entry!("model_check_tree_dirty", model_check_tree_dirty(tree, &graph));
-        if by_tree != reference {
+        if &by_tree != reference {
             return Verdict::Fail(sfail(
                 &format!("{prefix}:scale-mismatch:model_check_tree_dirty"),
-                format!("model_check_tree_dirty: {}", witness_of(&graph, &by_tree, &reference)),
+                format!("model_check_tree_dirty: {}", witness_of(graph, &by_tree, reference)),
                 case,
             ));
         }
@@ -353,8 +414,13 @@ pub fn check_scale(prefix: &str, case: &ScaleCase, ref_budget: Duration) -> Verd
             case,
         ));
     }
+    match guard(|| extra(graph, text, reference)) {
+        Ok(None) => {}
+        Ok(Some((class, message))) => return Verdict::Fail(sfail(&format!("{prefix}:{class}"), message, case)),
+        Err(p) => return Verdict::Fail(sfail(&format!("{prefix}:panic:{}", panic_site(&p)), format!("panic: {p}"), case)),
+    }
     let unit = graph.mk_unit_colored_vertices();
-    let nontrivial = (f.has_temporal() || f.has_hybrid()) && !reference.is_empty() && reference != unit;
+    let nontrivial = (f.has_temporal() || f.has_hybrid()) && !reference.is_empty() && *reference != unit;
     let mut classes = vec![
         format!("scale:vars={}", bn.num_vars()),
         format!(
@@ -409,6 +475,36 @@ pub fn mid_formula(raw: &RawF, bn: &BooleanNetwork, heavy: bool, cfg: FCfg) -> F
     scale_formula(raw, bn, cfg, depth, false)
 }
 
+/// `f` combined with a single state (the conjunction of one literal per network variable) or its
+/// complement under an operator evaluated by fixed-point iteration: the iterations then move by a
+/// few states out of more than 2^53.
+pub fn with_point(f: &F, bn: &BooleanNetwork, sel: u8, weak: bool) -> F {
+    let mut point: Option<F> = None;
+    for (i, v) in bn.variables().enumerate() {
+        let p = F::Prop(bn.get_variable_name(v).clone());
+        let lit = if mix(sel as u64, i as u64) % 3 == 0 { F::Un(UnOp::Not, Box::new(p)) } else { p };
+        point = Some(match point {
+            None => lit,
+            Some(acc) => F::Bin(BinOp::And, Box::new(acc), Box::new(lit)),
+        });
+    }
+    let point = point.unwrap_or(F::Const(true));
+    let not_point = F::Un(UnOp::Not, Box::new(point.clone()));
+    let un = |op, a: F| F::Un(op, Box::new(a));
+    let bin = |op, a: F, b: F| F::Bin(op, Box::new(a), Box::new(b));
+    let f = f.clone();
+    match (sel / 2) % if weak { 8 } else { 5 } {
+        0 => bin(BinOp::And, un(UnOp::EG, not_point), f),
+        1 => bin(BinOp::AU, f, point),
+        2 => bin(BinOp::Or, un(UnOp::AF, point), f),
+        3 => bin(BinOp::EU, not_point, bin(BinOp::And, f, un(UnOp::EX, point))),
+        4 => un(UnOp::AG, bin(BinOp::Or, not_point, f)),
+        5 => bin(BinOp::EW, not_point, f),
+        6 => bin(BinOp::AW, not_point, f),
+        _ => bin(BinOp::EW, not_point, un(UnOp::Not, un(UnOp::EF, point))),
+    }
+}
+
 /// The context sets a formula refers to, taken from `sets` by label position.
 pub fn context_for(f: &F, sets: &[BigSet]) -> BTreeMap<String, BigSet> {
     let (w, d) = f.labels();
@@ -428,7 +524,10 @@ pub fn mid_case(net: &RawMid, raw_f: &RawF, extra_k: u8) -> Result<ScaleCase, &'
 pub fn mid_case_with(net: &RawMid, raw_f: &RawF, extra_k: u8, cfg: FCfg, sets: &[BigSet]) -> Result<ScaleCase, &'static str> {
     let aeon = resolve_mid(net);
     let bn = BooleanNetwork::try_from(aeon.as_str()).map_err(|_| "aeon-not-parsed")?;
-    let f = mid_formula(raw_f, &bn, net.heavy, cfg);
+    let mut f = mid_formula(raw_f, &bn, net.heavy, cfg);
+    if net.pad >= 40 {
+        f = with_point(&f, &bn, extra_k, cfg.weak_until);
+    }
     Ok(ScaleCase {
         scale: true,
         aeon: Some(aeon),
@@ -568,6 +667,10 @@ pub fn shrink_formula(f: &F, still_fails: &dyn Fn(&F) -> bool) -> F {
 
 /// Shrink the formula of a failing scale case, keeping the failure class.
 pub fn shrink_scale(prefix: &str, failure: Failure, budget: Duration) -> Failure {
+    shrink_scale_with(failure, &|c| check_scale(prefix, c, budget))
+}
+
+pub fn shrink_scale_with(failure: Failure, check: &(dyn Fn(&ScaleCase) -> Verdict + Sync)) -> Failure {
     let Ok(case) = serde_json::from_value::<ScaleCase>(failure.case.clone()) else { return failure };
     let Ok(f) = refparse::parse(&case.formula, false) else { return failure };
     let class = failure.class.clone();
@@ -576,7 +679,7 @@ pub fn shrink_scale(prefix: &str, failure: Failure, budget: Duration) -> Failure
         let mut cand = case.clone();
         cand.formula = c.canon();
         cand.k = (c.quant_depth() as u16).max(cand.k.min(c.quant_depth() as u16));
-        match guard(|| check_scale(prefix, &cand, budget)) {
+        match guard(|| check(&cand)) {
             Ok(Verdict::Fail(fl)) if fl.class == class => {
                 *best.borrow_mut() = fl;
                 true
@@ -618,6 +721,37 @@ pub fn bundled_scale_stage_with(
     cfg: FCfg,
     pattern_weight: u32,
     force_weak: bool,
+    stats: &mut Stats,
+) -> Option<Failure> {
+    bundled_stage_general(prefix, models, per_model, seed, cfg, pattern_weight, force_weak, &|f| f.clone(), &|case| check_scale(prefix, case, ref_budget), stats)
+}
+
+/// The stage with a formula transformation and a property-specific check of each case.
+#[allow(clippy::too_many_arguments)]
+pub fn bundled_stage_custom(
+    prefix: &str,
+    models: &[&str],
+    per_model: usize,
+    seed: u64,
+    cfg: FCfg,
+    map: &(dyn Fn(&F) -> F + Sync),
+    check: &(dyn Fn(&ScaleCase) -> Verdict + Sync),
+    stats: &mut Stats,
+) -> Option<Failure> {
+    bundled_stage_general(prefix, models, per_model, seed, cfg, 1, false, map, check, stats)
+}
+
+#[allow(clippy::too_many_arguments)]
+fn bundled_stage_general(
+    _prefix: &str,
+    models: &[&str],
+    per_model: usize,
+    seed: u64,
+    cfg: FCfg,
+    pattern_weight: u32,
+    force_weak: bool,
+    map: &(dyn Fn(&F) -> F + Sync),
+    check: &(dyn Fn(&ScaleCase) -> Verdict + Sync),
     stats: &mut Stats,
 ) -> Option<Failure> {
     let started = Instant::now();
@@ -667,14 +801,17 @@ pub fn bundled_scale_stage_with(
         per_model_cases.push(
             formulae
                 .into_iter()
-                .map(|(f, sets)| ScaleCase {
-                    scale: true,
-                    aeon: None,
-                    model: Some(path.to_string()),
-                    k: f.quant_depth() as u16,
-                    formula: f.canon(),
-                    fast: true,
-                    context: context_for(&f, sets),
+                .map(|(f, sets)| {
+                    let f = map(&f);
+                    ScaleCase {
+                        scale: true,
+                        aeon: None,
+                        model: Some(path.to_string()),
+                        k: f.quant_depth() as u16,
+                        formula: f.canon(),
+                        fast: true,
+                        context: context_for(&f, sets),
+                    }
                 })
                 .collect(),
         );
@@ -699,9 +836,9 @@ pub fn bundled_scale_stage_with(
                 let case = cases[i];
                 let path = case.model.as_deref().unwrap_or("");
                 let t_case = Instant::now();
-                match guard(|| check_scale(prefix, case, ref_budget)) {
+                match guard(|| check(case)) {
                     Ok(Verdict::Fail(fl)) => {
-                        let fl = shrink_scale(prefix, fl, ref_budget);
+                        let fl = shrink_scale_with(fl, check);
                         let mut slot = failure.lock().unwrap();
                         if slot.is_none() {
                             *slot = Some(fl);
